@@ -35,6 +35,14 @@ def terminationTable : List (T × T × K × T) := [
   (.coal, .last, .right, .closed),
   (.coal, .closed, .right, .closed),
   (.coal, .coal, .neither, .coal)]
+inductive W where | always | sometimes | never deriving DecidableEq, Repr
+def whenAnd : List (W × W × W) := [(.always, .always, .always), (.always, .sometimes, .sometimes), (.always, .never, .never), (.sometimes, .always, .sometimes), (.sometimes, .sometimes, .sometimes), (.sometimes, .never, .never), (.never, .always, .never), (.never, .sometimes, .never), (.never, .never, .never)]
+def whenOr : List (W × W × W) := [(.always, .always, .always), (.always, .sometimes, .always), (.always, .never, .always), (.sometimes, .always, .always), (.sometimes, .sometimes, .sometimes), (.sometimes, .never, .sometimes), (.never, .always, .always), (.never, .sometimes, .sometimes), (.never, .never, .never)]
+def whenCertainty : List (W × W × W) := [(.always, .always, .always), (.always, .sometimes, .sometimes), (.always, .never, .sometimes), (.sometimes, .always, .sometimes), (.sometimes, .sometimes, .sometimes), (.sometimes, .never, .sometimes), (.never, .always, .sometimes), (.never, .sometimes, .sometimes), (.never, .never, .never)]
+def neverExpression : String := "[a&&b]"
+def separatorClassExpression : String := "/"
+def rootSeparatorExpression : String := "/"
+def semanticLiterals : List String := [".", ".."]
 
 -- obligations re-checked against the code as it is now
 theorem meta_eq_escapes : metaChars.all (literalEscapes.contains ·) && literalEscapes.all (metaChars.contains ·) = true := by decide
